@@ -1173,6 +1173,94 @@ def nf64add(src, log, name):
     return _apply(src, edits)
 
 
+def nordinal(src, log, fname):
+    """enum cut: append `pub open spec fn FNAME(x: E) -> u32 { match x { E::V0 => 0, E::V1 => 1, .. } }` -- the position of
+    each (field-less) variant in the declaration, which is what serde's derived identifier visitor maps an index to"""
+    toks = lex(src)
+    k = next((i for i, t in enumerate(toks) if t.text == "enum"), -1)
+    if k < 0 or toks[k + 2].text != "{":
+        raise Unsupported("nordinal: not a plain enum")
+    name = toks[k + 1].text
+    o = k + 2
+    names = []
+    for part in _split_args(src, toks, o):
+        pt = [t for t in lex(part)]
+        # skip attributes of the variant
+        j = 0
+        while j < len(pt) and pt[j].text == "#":
+            j = pt[j + 1].mate + 1
+        if j >= len(pt):
+            continue
+        if len(pt) - j != 1 or pt[j].kind != "ident":
+            raise Unsupported(f"nordinal: variant with fields or discriminant: {part.strip()[:40]}")
+        names.append(pt[j].text)
+    arms = ", ".join(f"{name}::{v} => {i}u32" for i, v in enumerate(names))
+    log.append(f"nordinal: generated {fname}({name}) from the declaration order of {len(names)} variants")
+    return src + f"\npub open spec fn {fname}(x: {name}) -> u32 {{ match x {{ {arms} }} }}\n"
+
+
+def nhoist(src, log):
+    """fn cut: struct items declared inside the body (`struct N { a: A, b: B }` / `struct N(A, B);`, with their attributes)
+    are moved behind the function (Verus has no items in bodies), and for each one
+    `impl VxFlat for N { open spec fn flat(self) -> Seq<Payload> { seq![enc(self.a), enc(self.b)] } }` is generated: serde's
+    derived Deserialize of a struct reads its fields in declaration order"""
+    toks = lex(src)
+    fk = next((i for i, t in enumerate(toks) if t.text == "fn"), -1)
+    if fk < 0:
+        return src
+    bo = next(i for i in range(fk, len(toks)) if toks[i].text == "{" and toks[i].depth == toks[fk].depth)
+    edits, tail = [], []
+    i = bo + 1
+    end = toks[bo].mate
+    while i < end:
+        t = toks[i]
+        if t.text == "struct" and toks[i - 1].text in ("{", "}", ";", "]", "=>"):
+            # attributes in front
+            a0 = i
+            while toks[a0 - 1].text == "]" and toks[toks[a0 - 1].mate - 1].text == "#":
+                a0 = toks[a0 - 1].mate - 1
+            name = toks[i + 1].text
+            g = i + 2
+            if toks[g].text == "{":
+                fields = []
+                for part in _split_args(src, toks, g):
+                    pt = lex(part)
+                    if pt:
+                        fields.append(pt[0].text if pt[0].text != "pub" else pt[1].text)
+                e = toks[g].mate
+                body = src[toks[i].start:toks[e].end]
+                # every field public (single-module unit)
+                decl = "pub " + _pub_fields(body)
+            elif toks[g].text == "(":
+                n = len([p for p in _split_args(src, toks, g) if p.strip()])
+                fields = [str(k) for k in range(n)]
+                e = toks[g].mate + 1   # the `;`
+                inner = ", ".join("pub " + p.strip() for p in _split_args(src, toks, g) if p.strip())
+                decl = f"pub struct {name}({inner});"
+            else:
+                i += 1
+                continue
+            edits.append((toks[a0].start, toks[e].end, ""))
+            flat = ", ".join(f"enc(self.{f})" for f in fields)
+            tail.append(decl + f"\nimpl VxFlat for {name} {{ open spec fn flat(self) -> Seq<Payload> {{ seq![{flat}] }} }}")
+            log.append(f"nhoist: local struct {name} moved out of the function body; VxFlat generated from its {len(fields)} fields in declaration order")
+            i = e + 1
+            continue
+        i += 1
+    if not edits:
+        return src
+    return _apply(src, edits) + "\n" + "\n".join(tail) + "\n"
+
+
+def _pub_fields(struct_text):
+    """`struct N { a: A, b: B }` -> `struct N { pub a: A, pub b: B }`"""
+    toks = lex(struct_text)
+    o = next(i for i, t in enumerate(toks) if t.text == "{")
+    parts = [p.strip() for p in _split_args(struct_text, toks, o) if p.strip()]
+    parts = [p if p.startswith("pub ") else "pub " + p for p in parts]
+    return struct_text[:toks[o].start] + "{ " + ", ".join(parts) + " }"
+
+
 def normalise(src, rules, log, ctx=None):
     ctx = ctx or {}
     for r in rules:
@@ -1204,6 +1292,10 @@ def normalise(src, rules, log, ctx=None):
             src = nblockpush(src, log)
         elif r == "nconcat2":
             src = nconcat2(src, log)
+        elif r.startswith("nordinal:"):
+            src = nordinal(src, log, r.split(":", 1)[1])
+        elif r == "nhoist":
+            src = nhoist(src, log)
         elif r.startswith("nf64add:"):
             src = nf64add(src, log, r.split(":", 1)[1])
         elif r.startswith("nowrap:"):
